@@ -5,6 +5,7 @@ from __future__ import annotations
 
 import itertools
 import json
+import re
 from multiprocessing import Pool
 
 from harness.common import Ctx, model_run, n2s, s2n, NCPU
@@ -120,7 +121,7 @@ def run(ctx: Ctx):
                 f"match: all patterns length<={lp} x all subjects length<={ls} over {SUB_ALPHA!r} through the real FileFilter vs model matcher and vs the four-case oracle (newline-free subjects); "
                 "non-trivial = pattern that excludes some but not all subjects / pattern containing a metacharacter or inner star; "
                 "(b) random project trees (file names with regex metacharacters included) x exclusion tuples built from the tree's own paths in the glob shapes (full path, *name, */name, prefix*, *stem*, */dir/*) "
-                "or their regex translations: filtered scan vs unfiltered scan minus everything at or below an excluded path (documented glob meaning decides what is excluded), imports between remaining modules "
+                "or their regex translations or hand-written regexes not terminated by $ or .* (oracle: re.match, i.e. anchored at the start only): filtered scan vs unfiltered scan minus everything at or below an excluded path (documented glob meaning decides what is excluded), imports between remaining modules "
                 "unchanged (known finding K2 aside), and vs the model scan with the exclusion oracle taken from the real re on the real paths")
     ctx.notes.append("file names containing a newline are outside the theorem (hypothesis no_newline); the matcher model still covers them and is compared with re")
 
@@ -166,8 +167,15 @@ def _tree_job(args):
                 stem = tgt[-1]
                 shapes = [paths[tgt], "*" + nm, "*/" + nm, paths[tgt][:len(paths[tgt]) - len(nm)] + stem[:1] + "*", "*" + stem + "*", "*/" + stem + "/*", "*" + stem[:2] + "*"]
                 globs = tuple(rng.sample(shapes, rng.randint(1, 2)))
-                use_regex = rng.random() < 0.35
+                use_regex = rng.random() < 0.45
                 rxs = tuple(conv(g) for g in globs)
+                raw_regex = use_regex and rng.random() < 0.5
+                if raw_regex:
+                    # user-written regexes, not terminated by $ or .*: "applied as regular expressions anchored at the START of the path" (re.match)
+                    esc = re.escape
+                    raw_shapes = [esc(paths[tgt]), ".*/" + esc(stem), ".*" + esc(stem[:2]), esc(os.path.dirname(paths[tgt])) + "/" + esc(stem[:1]),
+                                  ".*/" + esc(nm) + "$", "(?:.*/)?" + esc(stem) + r"(?:\.py)?$", ".*/" + esc(stem) + "/"]
+                    rxs = tuple(rng.sample(raw_shapes, rng.randint(1, 2)))
                 kw = dict(exclusions=(), regex_exclusions=rxs) if use_regex else dict(exclusions=globs)
                 flt = scan.real_scan(base, root, mp, **kw)
                 out["n"] += 1
@@ -177,7 +185,11 @@ def _tree_job(args):
                     out["violations"].append((dict(case, error=flt[1]), f"filtered scan failed: {flt[1]}", {"kind": "scan_error"}))
                     continue
                 # which paths the documented glob meaning excludes
-                excluded = {p for p, s in paths.items() if any(glob_oracle(g, s) for g in globs)}
+                if raw_regex:
+                    excluded = {p for p, s in paths.items() if any(re.match(rx, s) for rx in rxs)}
+                    out["stats"]["raw_regex_cases"] = out["stats"].get("raw_regex_cases", 0) + 1
+                else:
+                    excluded = {p for p, s in paths.items() if any(glob_oracle(g, s) for g in globs)}
                 if any(mp[:i] in excluded and i == len(mp) for i in range(1, len(mp) + 1)):
                     out["stats"]["module_path_excluded"] = out["stats"].get("module_path_excluded", 0) + 1
                     continue          # outside the claim (DESIGN 3): the architecture is empty
@@ -188,7 +200,7 @@ def _tree_job(args):
                 exp_mods = [m for m in unf[1] if not gone(m)]
                 if flt[1] != exp_mods:
                     out["violations"].append((dict(case, modules=flt[1], documented=exp_mods, surplus=sorted(set(flt[1]) - set(exp_mods)), missing=sorted(set(exp_mods) - set(flt[1]))),
-                                              f"exclusions {globs}: remaining modules are not exactly the non-excluded ones", {"kind": "excl_modules"}))
+                                              f"exclusions {rxs if raw_regex else globs}: remaining modules are not exactly the non-excluded ones", {"kind": "excl_modules"}))
                     continue
                 remaining = set(exp_mods)
                 exp_edges = sorted((a, b) for a, b in unf[2] if a in remaining and b in remaining)
@@ -212,7 +224,7 @@ def _tree_job(args):
                         surplus.remove((u, P))
                 if surplus or missing:
                     out["violations"].append((dict(case, edges_surplus=surplus, edges_missing=missing),
-                                              f"exclusions {globs}: imports between remaining modules differ from the scan without the pattern", {"kind": "excl_edges"}))
+                                              f"exclusions {rxs if raw_regex else globs}: imports between remaining modules differ from the scan without the pattern", {"kind": "excl_edges"}))
                     continue
                 for e in k2:
                     out["known"].append((dict(case, surplus_edge=list(e)), f"excluded sub module imported through 'from {e[1]} import n': edge {e[0]}->{e[1]} appears only in the filtered scan",
